@@ -513,6 +513,11 @@ def b_len(ex, p, args, kw, node):
         return [(p, Num(len(v.pairs)))]
     if isinstance(v, NDArr):
         return [(p, Num(v.n))]
+    if isinstance(v, DctL):
+        # the number of entries of the (insertion-ordered) representation -- equal to len(dict) as long as its keys are
+        # pairwise distinct, which is a side obligation at this point
+        ex.side.append((f"dict-keys-distinct@{ex.module.name}:{getattr(node, 'lineno', 0)}", list(p.cond), distinct_list(v.keys)))
+        return [(p, Num(v.keys.length()))]
     if isinstance(v, SetV):
         v = SetL(Lst(items=v.items)) if len(v.items) > 1 else v
     if isinstance(v, SetV):
